@@ -627,6 +627,7 @@ def run(eng, rep):
                 "with no other evaluation between the call and the read of the point counter; slot fields, final selection and hard-restart merge move "
                 "all components together; each stored objective is sumsq(residual)[+h] with h present exactly when it may be set; every exit of "
                 "solve_main selects through get_final_results.")
+    rep.explain("Also decided: saved and returned records are copies, not views of arrays updated in place (T11, C03-8); means are taken over the samples actually run (C03-9); extra samples are averaged into the slot that received the first sample of the same buffer (sibling agreement, C03-3c); stores made through a helper are checked at the helper's call sites (wrapped consumers).")
     rep.not_decided += ["'to rounding of the base-point arithmetic'", "'resid is the mean of the returned residual vectors' (running-mean formula, see C17)",
                         "regularised sub-problem solved over the true box: decided under C06-4"]
     A = anchors(eng)
